@@ -118,6 +118,8 @@ class TUnion(T):
 
 INT, BOOL, REAL, NONE, STR, FUNC = TInt(), TBool(), TReal(), TNone(), TStr(), TFunc()
 OCTETS = TList(INT)
+# a value of statically unknown type (cookies, call-out results, event arguments)
+T_ANY = TUnion(NONE, INT, REAL, BOOL, TList(INT), TFunc(), TRef(None), STR)
 
 
 # ---------------------------------------------------------------------------
@@ -185,11 +187,12 @@ class VSymStr(V):
 
 class VRef(V):
     """object or str-keyed record"""
-    __slots__ = ('t', 'cls')
+    __slots__ = ('t', 'cls', 'old')
 
-    def __init__(self, t, cls=None):
+    def __init__(self, t, cls=None, old=False):
         self.t = t
         self.cls = cls
+        self.old = old      # produced by old(): identity only, no field access (fields would be read in the wrong heap)
 
     def __repr__(self):
         return 'VRef(%s:%s)' % (self.t, self.cls)
@@ -602,6 +605,10 @@ class State:
         self.facts = set()
         self.pre_refs = set()    # ids of terms known to denote pre-state objects (ref < PARAM_REF_BASE)
         self.pre_keep = []
+        self.new_refs = set()    # ids of symbolic refs of objects allocated after a cut point
+        self.arr_bound = {}      # id of a havocked array constant -> allocation bound at the time of the havoc
+        self.wf_done = set()
+        self.merge_info = {}
         self.obligations = []
         self.spec = 0            # >0 : spec-mode evaluation (pure)
         self.side = []           # side conditions collected in spec mode (bv overflow etc.)
@@ -630,6 +637,9 @@ class State:
             raise EngineError('allocation in spec mode (line %s)' % self.cur_line)
         r = z3.simplify(self.next_ref)
         self.next_ref = z3.simplify(r + 1)
+        if not z3.is_int_value(r):
+            self.new_refs.add(r.get_id())
+            self.pre_keep.append(r)
         return r
 
     def next_ref_term(self):
@@ -640,8 +650,65 @@ class State:
         nr = self.fresh('nr', z3.IntSort())
         self.pc.append(nr >= self.next_ref)
         self.next_ref = nr
+        for c in self.ghost.get('created_arrays', []):
+            self.arr_bound.setdefault(c.get_id(), nr)
+        self.ghost['created_arrays'] = []
+        self.trace_wf()
+
+    def base_const(self, arr):
+        while z3.is_store(arr):
+            arr = arr.arg(0)
+        return arr
+
+    def wf_array(self, name, kind):
+        """closed well-formedness axiom for the constant underlying heap array `name`:
+        kind 'ref': every stored reference denotes an object allocated before the array was (re)created;
+        kind 'len': lengths are non-negative"""
+        arr = self.H.get(name)
+        if arr is None:
+            return
+        base = self.base_const(arr)
+        mi = self.merge_info.get(base.get_id())
+        if mi is not None:
+            # merged frame array: axioms for both components
+            for comp in (mi[0], mi[1]):
+                saved = self.H[name]
+                self.H[name] = comp
+                try:
+                    self.wf_array(name, kind)
+                finally:
+                    self.H[name] = saved
+            return
+        key = (base.get_id(), kind)
+        if key in self.wf_done or not z3.is_const(base):
+            return
+        self.wf_done.add(key)
+        r = z3.Int('wf!r')
+        if kind == 'len':
+            self.pc.append(z3.ForAll([r], z3.Select(base, r) >= 0, patterns=[z3.Select(base, r)]))
+            return
+        bound = self.arr_bound.get(base.get_id())
+        if bound is None:
+            bound = z3.IntVal(PARAM_REF_BASE)
+        # (no heap slot ever refers to the ghost trace list)
+        self.pc.append(z3.ForAll([r], z3.And(z3.Select(base, r) >= 0, z3.Select(base, r) < bound, z3.Select(base, r) != 600000),
+                                 patterns=[z3.Select(base, r)]))
+
+    def trace_wf(self):
+        """the ghost trace holds only events, all of them allocated earlier"""
+        er = self.H.get('ER')
+        if er is None:
+            er = self.harr('ER', z3.ArraySort(z3.IntSort(), z3.IntSort()))
+        i = z3.Int('tw!i')
+        tr = z3.simplify(z3.Select(er, z3.IntVal(600000)))
+        if not (z3.is_app(tr) and tr.decl().kind() == z3.Z3_OP_SELECT) and not z3.is_const(tr):
+            return
+        bound = self.next_ref if er.get_id() != self.H0.get('ER', er).get_id() else z3.IntVal(PARAM_REF_BASE)
+        self.pc.append(z3.ForAll([i], z3.And(z3.Select(tr, i) > 0, z3.Select(tr, i) < bound), patterns=[z3.Select(tr, i)]))
 
     def pc_fact(self, f):
+        if self.bound_vars:
+            return      # under a quantifier: terms mention bound variables
         f = z3.simplify(f)
         if z3.is_true(f):
             return
@@ -743,6 +810,8 @@ class State:
             return 'new'
         if t.get_id() in self.pre_refs:
             return 'pre'
+        if t.get_id() in self.new_refs:
+            return 'new'
         return None
 
     def smart_select(self, arr, ref):
@@ -764,7 +833,36 @@ class State:
                 arr = arr.arg(0)
                 continue
             break
+        mi = self.merge_info.get(arr.get_id())
+        if mi is not None and rr in ('pre', 'par'):
+            # frame array  lambda r. if r < bound and r not in excluded then old[r] else junk[r]
+            old, junk, excluded = mi
+            clear = True
+            for e in excluded:
+                if z3.is_int_value(e) and cref is not None:
+                    if e.as_long() == cref:
+                        clear = False
+                    continue
+                re_ = self.region(e)
+                if re_ is None or re_ == rr:
+                    if e.get_id() == ref.get_id() or not (z3.is_int_value(e) and cref is not None):
+                        clear = False
+            if clear:
+                return self.smart_select(old, ref)
         return z3.simplify(z3.Select(arr, ref))
+
+    def merged(self, name, old, junk, bound, excluded=(), extra_keep=None):
+        """array equal to `old` at refs below `bound` (except `excluded`), arbitrary (`junk`) elsewhere"""
+        r = z3.Int('mg!r')
+        conds = [r < bound] + [r != e for e in excluded]
+        keep = z3.And(conds) if len(conds) > 1 else conds[0]
+        if extra_keep is not None:
+            keep = z3.Or(keep, extra_keep(r))
+        lam = z3.Lambda([r], z3.If(keep, z3.Select(old, r), z3.Select(junk, r)))
+        if extra_keep is None:
+            self.merge_info[lam.get_id()] = (old, junk, list(excluded))
+            self.pre_keep.append(lam)
+        return lam
 
     def hget(self, name, sort, ref):
         return self.smart_select(self.harr(name, sort), ref)
